@@ -151,9 +151,13 @@ def missingBytes : Nat → List Bool → Bytes
   | _ + 1, [] => []
   | f + 1, flags => packBits (flags.take 8) :: missingBytes f (flags.drop 8)
 
+/-- `HailType._missing(value)` -/
+def isNa : Value → Bool
+  | .na => true
+  | _ => false
+
 /-- the `missing` flags of a list of values, as written -/
-def missingOf (xs : List Value) : Bytes :=
-  missingBytes xs.length (xs.map fun x => match x with | .na => true | _ => false)
+def missingOf (xs : List Value) : Bytes := missingBytes xs.length (xs.map isNa)
 
 /-- `lookup_bit(byte, which_bit)` -/
 def lookupBit (byte bit : Nat) : Bool := byte / 2 ^ bit % 2 == 1
@@ -192,11 +196,6 @@ def fromColMajor {α : Type} : List Nat → List α → List α
 
 /-! ## encoder -/
 
-/-- bytes of the present fields after their missing-bit bytes: shared by struct, tuple, locus, interval, dict entry -/
-def isNa : Value → Bool
-  | .na => true
-  | _ => false
-
 def concatOpt : List (Option Bytes) → Option Bytes
   | [] => some []
   | some b :: r => (concatOpt r).map (b ++ ·)
@@ -212,6 +211,46 @@ def naOrEmpty (x : Value) (enc : Value → Option Bytes) : Option Bytes :=
   | .na => some []
   | _ => enc x
 
+/-- `tlocus`: `struct_repr = tstruct(contig=tstr, pos=tint32)`, both present: one zero missing-bit byte -/
+def encLocus (contig : Str) (pos : Int) : Option Bytes :=
+  match writeStr contig, writeInt32 pos with
+  | some a, some b => some (0 :: (a ++ b))
+  | _, _ => none
+
+/-- `tinterval`: `tstruct(start, end, includes_start, includes_end)` -/
+def encInterval (enc : Value → Option Bytes) (s e : Value) (is ie : Bool) : Option Bytes :=
+  match naOrEmpty s enc, naOrEmpty e enc with
+  | some a, some b => some (missingOf [s, e, .bool is, .bool ie] ++ a ++ b ++ [if is then 1 else 0] ++ [if ie then 1 else 0])
+  | _, _ => none
+
+/-- `tarray` (and `tset` through `list(value)`): int32 length, missing-bit bytes, present elements -/
+def encSeq (enc : Value → Option Bytes) (xs : List Value) : Option Bytes :=
+  match writeInt32 xs.length, concatOpt (xs.map fun x => naOrEmpty x enc) with
+  | some l, some body => some (l ++ missingOf xs ++ body)
+  | _, _ => none
+
+/-- one dict entry: the struct `{'key': k, 'value': v}` -/
+def encEntry (encK encV : Value → Option Bytes) (p : Value × Value) : Option Bytes :=
+  match naOrEmpty p.1 encK, naOrEmpty p.2 encV with
+  | some a, some b => some (missingOf [p.1, p.2] ++ a ++ b)
+  | _, _ => none
+
+/-- `tdict`: int32 length, then the entries (no missing bits for the entries themselves) -/
+def encDict (encK encV : Value → Option Bytes) (es : List (Value × Value)) : Option Bytes :=
+  match writeInt32 es.length, concatOpt (es.map (encEntry encK encV)) with
+  | some l, some body => some (l ++ body)
+  | _, _ => none
+
+/-- `tndarray`: dimensions as int64, then — `if value.size > 0` — the elements in column-major order; `np.nditer` refuses an
+object array (`TypeError`: NPY_ITER_REFS_OK not enabled), so only numeric element types get through -/
+def encNd (numeric : Bool) (enc : Value → Option Bytes) (shape : List Nat) (data : List Value) : Option Bytes :=
+  match concatOpt (shape.map fun (d : Nat) => writeInt64 d) with
+  | some dims =>
+    if data.isEmpty then some dims
+    else if numeric then (concatOpt ((toColMajor shape data).map enc)).map (dims ++ ·)
+    else none
+  | none => none
+
 mutual
 /-- `t._convert_to_encoding(byte_writer, v)` for `v` that is not `None` -/
 def encode : HType → Value → Option Bytes
@@ -222,35 +261,14 @@ def encode : HType → Value → Option Bytes
   | .bool, .bool b => some [if b then 1 else 0]
   | .str, .str s => writeStr s
   | .call, .call alleles phased => callEnc alleles phased
-  | .locus _, .locus contig pos =>                      -- tlocus.struct_repr = tstruct(contig=tstr, pos=tint32); never missing
-    match writeStr contig, writeInt32 pos with
-    | some a, some b => some (0 :: (a ++ b))
-    | _, _ => none
-  | .interval t, .interval s e is ie =>                 -- tstruct(start, end, includes_start, includes_end)
-    match naOrEmpty s (encode t), naOrEmpty e (encode t) with
-    | some a, some b => some (missingOf [s, e, .bool is, .bool ie] ++ a ++ b ++ [if is then 1 else 0] ++ [if ie then 1 else 0])
-    | _, _ => none
-  | .array t, .arr xs | .set t, .set xs =>
-    match writeInt32 xs.length, concatOpt (xs.map fun x => naOrEmpty x (encode t)) with
-    | some l, some body => some (l ++ missingOf xs ++ body)
-    | _, _ => none
-  | .dict k v, .dict es =>
-    match writeInt32 es.length,
-      concatOpt (es.map fun (p : Value × Value) =>
-        match naOrEmpty p.1 (encode k), naOrEmpty p.2 (encode v) with
-        | some a, some b => some (missingOf [p.1, p.2] ++ a ++ b)
-        | _, _ => none) with
-    | some l, some body => some (l ++ body)
-    | _, _ => none
+  | .locus _, .locus contig pos => encLocus contig pos
+  | .interval t, .interval s e is ie => encInterval (encode t) s e is ie
+  | .array t, .arr xs => encSeq (encode t) xs
+  | .set t, .set xs => encSeq (encode t) xs
+  | .dict k v, .dict es => encDict (encode k) (encode v) es
   | .struct fs, .struct xs => (encodeFields fs xs).map (missingOf xs ++ ·)
   | .tuple ts, .tup xs => (encodeTuple ts xs).map (missingOf xs ++ ·)
-  | .ndarray t _, .nd shape data _ =>
-    match concatOpt (shape.map fun (d : Nat) => writeInt64 d) with
-    | some dims =>
-      if data.isEmpty then some dims                    -- `if value.size > 0`
-      else if isNumeric t then (concatOpt ((toColMajor shape data).map (encode t))).map (dims ++ ·)
-      else none                          -- `np.nditer` of an object array: TypeError (NPY_ITER_REFS_OK not enabled)
-    | none => none
+  | .ndarray t _, .nd shape data _ => encNd (isNumeric t) (encode t) shape data
   | _, _ => none
 def encodeFields : List (Str × HType) → List Value → Option Bytes
   | [], [] => some []
